@@ -292,7 +292,8 @@ impl ProgGen {
                     size: if has_size { Some(size_units) } else { None },
                     outp: Some(outp),
                     fill: false,
-                    labelalign: None,
+                    // v3: some banks ask for aligned (top-level) labels
+                    labelalign: if crate::engine::gen_version() >= 3 && t.chance(1, 6) { Some(*t.pick(&[16usize, 32, 64])) } else { None },
                 };
                 outp += size_units * bits + if t.chance(1, 4) { 8 * t.draw(4) as usize } else { 0 };
                 banks.push(def);
